@@ -28,6 +28,33 @@ class V(object):
         return "%s%d" % (self.tag, self.i)
 
 
+class ResId(object):
+    """A caller-defined resource identifier (any hashable object will do)."""
+    __slots__ = ("name",)
+
+    def __init__(self, name):
+        self.name = name
+
+    def __hash__(self):
+        return sum(ord(ch) * (i + 3) for i, ch in enumerate(self.name)) + 99991
+
+    def __repr__(self):
+        return self.name
+
+
+class Resources(object):
+    """The three resource identifiers a run uses: rig's own, or the
+    caller's."""
+
+    def __init__(self, par, custom):
+        if custom:
+            self.Cores, self.SDRAM, self.SRAM = (
+                ResId("MyCores"), ResId("MySDRAM"), ResId("MySRAM"))
+        else:
+            self.Cores, self.SDRAM, self.SRAM = par.Cores, par.SDRAM, par.SRAM
+        self.custom = custom
+
+
 class EV(V):
     """A vertex compared by value: separately created equal objects name the
     same vertex (as strings or tuples used as vertices do)."""
